@@ -50,7 +50,7 @@ def liquidLt (a b : Val) : Res Bool :=
   | _, _ =>
     if l.isBool || r.isBool then .ok false else      -- a bool on either side: False
     match l.num?, r.num? with
-    | some x, some y => if decVsNan l r then .hostError else .ok (x.lt y)
+    | some x, some y => (match decVsNan l r with | true => .hostError | false => .ok (x.lt y))
     | _, _ => .typeError
 
 /-- `needle in hay` for `str` -/
